@@ -61,8 +61,12 @@ def level_shift_stream(rng, n, seg=(5, 120), scale_choices=(1.0,), offset=0.0, h
     return out[:n]
 
 
-def batch_sequence(rng, nb, d, size=(8, 120), shift_p=0.35, dup_p=0.15, integer_p=0.1, const_p=0.05):
-    """list of 2-d arrays (nb batches, d features) with level / variance shifts between batches"""
+UNITS = (2.0 ** -30, 2.0 ** -40, 2.0 ** 30)
+
+
+def batch_sequence(rng, nb, d, size=(8, 120), shift_p=0.35, dup_p=0.15, integer_p=0.1, const_p=0.05, unit_p=0.08):
+    """list of 2-d arrays (nb batches, d features) with level / variance shifts between batches; with probability unit_p the whole
+    history is expressed in another unit of measurement (a power of two: the same history bit for bit up to the exponent)"""
     mu = rng.normal(0, 1, size=d)
     sd = np.abs(rng.normal(1, 0.3, size=d)) + 0.2
     out = []
@@ -86,4 +90,7 @@ def batch_sequence(rng, nb, d, size=(8, 120), shift_p=0.35, dup_p=0.15, integer_
         if rng.random() < const_p:
             X[:, int(rng.integers(0, d))] = float(np.round(mu[0], 2))
         out.append(X)
+    if rng.random() < unit_p:
+        u = float(rng.choice(UNITS))
+        out = [X * u for X in out]
     return out
